@@ -116,11 +116,36 @@ def save_via(tg, fmt, blanks, mn, mx, thr):
         import shutil
         atexit.register(shutil.rmtree, _SAVE_DIR, True)
     fn = os.path.join(_SAVE_DIR, "%d.out" % os.getpid())
-    if os.path.exists(fn):
-        os.remove(fn)
-    tg.save(fn, fmt, blanks, mn, mx, thr, "silence")
+    # the path holds an earlier annotation; a save that refuses (raises) must leave it as it was
+    earlier = 'File type = "ooTextFile"\nObject class = "TextGrid"\n\n0\n1\n<absent>\n'
+    with open(fn, "w", encoding="utf-8", newline="") as fh:
+        fh.write(earlier)
+    try:
+        tg.save(fn, fmt, blanks, mn, mx, thr, "silence")
+    except Exception:
+        left = None
+        if os.path.exists(fn):
+            with open(fn, "r", encoding="utf-8", newline="") as fh:
+                left = fh.read()
+        if left != earlier:
+            raise core.OffGrid("the save raised, yet the file that was at the path before is %s" %
+                               ("gone" if left is None else "changed (%d characters left)" % len(left)))
+        raise
     with open(fn, "r", encoding="utf-8", newline="") as fh:
-        return fh.read()
+        text = fh.read()
+    # saving over a file that is already there: whatever the path held before (the same annotation with other line
+    # ends, a cut-off copy, something else), afterwards it holds what this call writes
+    kind = len(text) % 7
+    old = {0: text.replace("\n", "\r\n"), 1: text.replace("\n", "\r"), 2: text[:len(text) // 2], 3: text + "\n"}.get(kind)
+    if old is not None and old != text:
+        with open(fn, "w", encoding="utf-8", newline="") as fh:
+            fh.write(old)
+        tg.save(fn, fmt, blanks, mn, mx, thr, "silence")
+        with open(fn, "r", encoding="utf-8", newline="") as fh:
+            again = fh.read()
+        if again != text:
+            return again
+    return text
 
 
 def build_tg(g, tof):
